@@ -127,6 +127,9 @@ pub enum Req {
     Raw(Vec<u8>),
     /// a well-formed message a client never sends (a Send* item)
     Unexpected(u8),
+    /// GetLastState whose one-byte `subscribe` field holds this byte (molecule accepts any byte in a
+    /// `Bool`; only 0 and 1 are booleans)
+    SubscribeByte(u8),
 }
 
 #[derive(Clone, Debug, Serialize, Deserialize)]
@@ -213,6 +216,7 @@ fn req_strategy() -> impl Strategy<Value = Req> {
         5 => txs,
         1 => proptest::collection::vec(any::<u8>(), 0..48).prop_map(Req::Raw),
         1 => (0u8..12).prop_map(Req::Unexpected),
+        1 => prop_oneof![Just(2u8), Just(255u8), any::<u8>()].prop_map(Req::SubscribeByte),
     ]
 }
 
@@ -797,6 +801,12 @@ fn make_concrete(w: &World, req: &Req, st: &mut Stats) -> Concrete {
     match req {
         Req::LastState(s) => Concrete::LastState(*s),
         Req::Raw(b) => Concrete::Raw(b.clone()),
+        Req::SubscribeByte(b) => {
+            st.label(if *b <= 1 { "lc:subscribe-byte:boolean" } else { "lc:subscribe-byte:not-a-boolean" });
+            let flag = packed::Bool::new_unchecked(NBytes::from(vec![*b]));
+            let u: packed::LightClientMessageUnion = packed::GetLastState::new_builder().subscribe(flag).build().into();
+            Concrete::Raw(packed::LightClientMessage::new_builder().set(u).build().as_bytes().to_vec())
+        }
         Req::Unexpected(k) => {
             let tip_vh = packed::VerifiableHeader::new_builder().header(w.tip().block.header().data()).build();
             let u: packed::LightClientMessageUnion = match k % 4 {
